@@ -3097,7 +3097,9 @@ nlopt_result bobyqa(int n, int npt, double *x,
     for (j = 0; j < n; ++j)
         if (s[j] == 0 || !nlopt_isfinite(s[j])) {
             nlopt_stop_msg(stop, "invalid scaling %g of dimension %d: possible over/underflow?", s[j], j);
-            ret = NLOPT_INVALID_ARGS; goto done;
+            /* x has not been rescaled and shifted yet: must not go through done */
+            free(s);
+            return NLOPT_INVALID_ARGS;
         }
 
     /* this statement must go before goto done, so that --x occurs */
